@@ -205,7 +205,7 @@ int main(int argc, char **argv) {
 	vh_sig(vh_mix(8, 0));
 	/* 7. a fixed family of pseudo-random files (deterministic generator, not sampled at run time): random bodies with either magic,
 	 *    and valid seeds whose whole trailer (or whose index block) is overwritten with generator output */
-	for (int fam = 0; fam < 3; fam++) for (uint32_t id = 0; id < (vh_thorough ? 20000u : 3000u); id++) {
+	for (int fam = 0; fam < 3; fam++) for (uint32_t id = 0; id < (vh_thorough ? 300000u : 3000u); id++) {
 		if (!only && !MINE()) continue;
 		uint32_t x = id * 2654435761u + 97 * fam + 1; size_t l;
 		#define NEXT() (x ^= x << 13, x ^= x >> 17, x ^= x << 5, x)
